@@ -72,10 +72,18 @@ type AffEnv struct {
 	Info *types.Info
 	Vars map[types.Object]Aff
 	Sym  func(e ast.Expr) (string, bool)
+	// Val, when set, is consulted first: the affine value of an expression the caller knows
+	// (e.g. len(x) of a slice made with a known length).
+	Val func(e ast.Expr) (Aff, bool)
 }
 
 func (env *AffEnv) Eval(e ast.Expr) (Aff, bool) {
 	e = Unparen(e)
+	if env.Val != nil {
+		if a, ok := env.Val(e); ok {
+			return a, true
+		}
+	}
 	if tv, ok := env.Info.Types[e]; ok && tv.Value != nil && tv.Value.Kind() == constant.Int {
 		if v, ok := constant.Int64Val(tv.Value); ok {
 			return AffConst(v), true
